@@ -17,6 +17,7 @@ pub fn comp(name: &str, generic: &str, prefix: &[&str], inner: &[&Arg], suffix: 
     decls.push(if args.is_empty() { format!("type {name} = {generic};") } else { format!("type {name} = {generic}<{}>;", args.join(", ")) });
     Arg { decls, text: name.to_string() }
 }
+fn unit0() -> Arg { comp("Unit", "Struct", &["ut@Tuple"], &[], &[]) }
 pub fn value(v: &str) -> Arg { Arg { decls: vec![], text: v.to_string() } }
 
 /// Every generic type id of the core library (the `ID` constants under extensions/modules).
@@ -53,6 +54,10 @@ pub fn universe(full: bool) -> Vec<Arg> {
     let unit = comp("Unit", "Struct", &["ut@Tuple"], &[], &[]);
     u.push(unit.clone());
     u.push(comp("Pair", "Struct", &["ut@Tuple"], &[&felt, &ints[4]], &[]));
+    // a wide value (40 cells): size-dependent costs and ap changes (store_temp, dup, boxes, enums around it)
+    let wide = { let members: Vec<&Arg> = (0..40).map(|_| &felt).collect(); comp("Wide40", "Struct", &["ut@Tuple"], &members, &[]) };
+    u.push(wide.clone());
+    u.push(comp("OptWide", "Enum", &["ut@core::option::Option::<Wide40>"], &[&wide, &unit0()], &[]));
     let u256 = comp("U256", "Struct", &["ut@core::integer::u256"], &[&ints[4], &ints[4]], &[]);
     u.push(u256.clone());
     u.push(comp("Never", "Enum", &["ut@Never"], &[], &[]));
